@@ -362,3 +362,20 @@ Proof.
   - apply repeat_spec in Hx. exists (ukt, c, m). split; [left; reflexivity | exact Hx].
   - destruct (IH _ _ Hx) as (h & Hin & E). exists h. split; [right; exact Hin | exact E].
 Qed.
+
+(* the run constant is the configured annual mean temperature (config.go:120): the lower boundary node of every
+   day's result is that value, and the envelope statement holds with it *)
+Lemma day_lower_boundary_lemma : forall (d : day_in R) (t0 : list R) (x : R),
+  last (o_tsoil0 (soiltemp_day d t0)) x = d_tbase d /\ last (o_td (soiltemp_day d t0)) x = d_tbase d.
+Proof.
+  intros d t0 x. unfold soiltemp_day. destruct (hours 24 _ _ _ _ _ _) as [tH sums]. cbn [o_tsoil0 o_td].
+  split; (change (?a :: ?l ++ [d_tbase d]) with ((a :: l) ++ [d_tbase d]); apply last_last).
+Qed.
+
+Lemma run_envelope_configured_lemma : forall (days : list (day_in R)) (tmin tmax amt lo hi : R) (n : nat),
+  (1 <= n)%nat -> Forall (day_admissible (tbase_of_config amt)) days ->
+  let t0 := init_profile tmin tmax (tbase_of_config amt) n in
+  lo <= (tmin + tmax) / 2 <= hi -> lo <= amt <= hi ->
+  within lo hi (snd (run days t0)) ->
+  within lo hi (fst (run days t0)).
+Proof. intros. apply run_envelope_admissible_lemma; auto. Qed.
